@@ -140,6 +140,23 @@ def runner(rep, tier, seed, replay):
     # (B) validate the recorded loop events against the specification
     ok, bad = tracecheck.validate_cmdlist(trace_batch, rep)
     ntraces += ok
+    # ---- members of a list that start no program still have a status: an assignment-only command succeeds, a command the shell
+    # rejects (redirection without a command) fails; `$?`, the operators and the exit status follow them
+    dl = [("vmk 1 3 ; A=1 ; vmk 2 0 $?", [("1", []), ("2", ["0"])], 0), ("vmk 1 3 ; A=1", [("1", [])], 0), ("vmk 1 0 ; > ; vmk 2 0 $?", [("1", []), ("2", ["1"])], 0),
+          ("vmk 1 0 ; >", [("1", [])], 1), ("vmk 1 3 || A=1 && vmk 2 0 $?", [("1", []), ("2", ["0"])], 0), ("A=1 && vmk 2 0 $?", [("2", ["0"])], 0),
+          ("> || vmk 2 0 $?", [("2", ["1"])], 0), ("vmk 1 0 && > ; vmk 2 0 $?", [("1", []), ("2", ["1"])], 0), ("vmk 1 3 ; A=1 B=2 ; vmk 2 0 $? $A$B", [("1", []), ("2", ["0", "12"])], 0)]
+    dres = run_cases([{"entry": e, "text": ln + ("\n" if e == "script" else ""), "want_files": False, "timeout": 20} for ln, _, _ in dl for e in ("c", "script")])
+    k = 0
+    for ln, want, wst in dl:
+        for ent in ("c", "script"):
+            res = dres[k]
+            k += 1
+            rep.cov["evaluations"] += 1
+            mk = [(r.get("id"), r.get("argv")) for r in res.get("log", []) if r.get("h") == "mk"]
+            if res.get("timed_out") or mk != want or res.get("status") != wst:
+                rep.violation("no-program-member/%s" % ent, "`%s` (%s): markers %s exit status %s, expected %s and %s (stderr %s)"
+                              % (ln, ent, mk, res.get("status"), want, wst, res.get("stderr", "")[-150:]),
+                              {"entry": ent, "text": ln}, {"kind": "no-program-member", "entry": ent})
     # ---- a background child that ends while a later foreground pipeline of the list is still running must not disturb the
     # list: the pipeline's own status decides && / ||, $? and the exit status (the wait must not be cut short by foreign children)
     bgp = []
